@@ -204,7 +204,7 @@ pub fn small_state(core: &Core) -> Vec<(&'static str, u64)> {
     ("ime", ime_code(&core.interrupts_enabled) as u64),
     ("run", run_code(&core.run_state) as u64),
     ("if", io.interrupt_flag.as_u8() as u64),
-    ("ie", io.interrupt_mask as u64),
+    ("ie", crate::mem::memory_read_byte(m as *const MemoryAreas, 0xFFFF) as u64),
     ("div_phase", io.timer.verif_cycle_count() as u64),
     ("tima", io.timer.get_counter() as u64),
     ("tma", io.timer.get_modulo() as u64),
